@@ -1,13 +1,15 @@
 (* C09 — Packages/Sources parsing and filters.
    The parsers are modelled in two layers (Model/Deb822.v): [classify_*] maps
    the bytes of one line to a class, [run_*] is the stanza state machine.  The
-   theorems below are about the state machine for ALL stanza lists and layouts
-   and about the filter / ignore predicates; the byte-level classification is
-   tied to the code by the per-run correspondence (and to an independent
-   reference parser), not proved against a renderer: the full byte-level
-   round-trip [parse (render ss) = entries ss] is NOT proved (see DESIGN.md). *)
-From AM.Model Require Import Base Path Targets Deb822.
-From AM.Lemmas Require Import Deb822Lemmas.
+   first group of theorems is about the state machine for ALL stanza lists and
+   layouts and about the filter / ignore predicates.  The last group
+   ([packages_bytes_*]) closes the byte level for Packages indices: the text
+   rendered from a structured index (Model/Render.v) parses to exactly the pool
+   files the structured form defines, for the three admissible file endings.
+   For Sources the byte-level classification is tied to the code by the per-run
+   correspondence and the independent reference parser only. *)
+From AM.Model Require Import Base Path Targets Deb822 Render.
+From AM.Lemmas Require Import Deb822Lemmas RenderLemmas.
 From Coq Require Import Permutation.
 Open Scope string_scope.
 Open Scope list_scope.
@@ -90,3 +92,56 @@ Theorem ignore_prefix :
   exists q, In q ign /\ pabs (parse q) = pabs p /\ is_prefix_list (parts (parse q)) (parts p) = true.
 Proof. exact ignore_prefix_lemma. Qed.
 Print Assumptions ignore_prefix.
+
+(* ---------------------------------------------------------------- byte level *)
+(* A Packages index as TEXT: [render_*] writes structured stanzas (fields with
+   values and continuation lines, any field order, extra fields, 1+k blank lines
+   between stanzas) in the control-file format.  For every well-formed index
+   (names without white space / colon, values non-empty and stripped, no embedded
+   newline) in which every Source value has a token and every Size is an integer
+   ([plain_index]), parsing the bytes yields exactly the pool files the structured
+   form defines ([index_entries] = what each stanza yields by
+   [packages_stanza_spec], last one per path) — whether the last stanza is
+   followed by blank lines, only by its final newline, or by nothing at all. *)
+Theorem packages_bytes_spaced :
+  forall q flt ign root ss,
+  wf_index ss = true -> plain_index ss = true ->
+  parse_packages q flt ign root (render_spaced ss) = POk (index_entries q flt ign root ss).
+Proof. exact parse_spaced_lemma. Qed.
+Print Assumptions packages_bytes_spaced.
+
+Theorem packages_bytes_tight :
+  forall q flt ign root ss last,
+  wf_index ss = true -> forallb wf_field last = true -> plain_index (ss ++ [(last, 0)]) = true ->
+  parse_packages q flt ign root (render_tight ss last) = POk (index_entries q flt ign root (ss ++ [(last, 0)])).
+Proof. exact parse_tight_lemma. Qed.
+Print Assumptions packages_bytes_tight.
+
+Theorem packages_bytes_unterminated :
+  forall q flt ign root ss last final,
+  wf_index ss = true -> forallb wf_field last = true -> wf_field final = true -> fcont final = [] ->
+  plain_index (ss ++ [(last ++ [final], 0)]) = true ->
+  parse_packages q flt ign root (render_unterminated ss last final) =
+  POk (index_entries q flt ign root (ss ++ [(last ++ [final], 0)])).
+Proof. exact parse_unterminated_lemma. Qed.
+Print Assumptions packages_bytes_unterminated.
+
+(* non-vacuity: a two-stanza index with a multi-line Description, a field whose
+   name extends an interesting one, Ubuntu field order, two separator lines *)
+Example packages_bytes_example :
+  let f n v c := {| fname := n; fvalue := v; fcont := c |} in
+  let s1 := [f "Package" "alpha" []; f "Package-Type" "deb" []; f "Source" "alpha-src (1.0)" [];
+             f "Filename" "pool/main/a/alpha/alpha_1.0_amd64.deb" []; f "Size" "1234" [];
+             f "SHA256" "00ff" []; f "Description" "first line" [" Filename: not/a/field"; " ."]] in
+  let s2 := [f "Filename" "pool/main/b/beta_2_all.deb" []; f "Size" "7" []; f "Package" "beta" []] in
+  let ss := [(s1, 1); (s2, 0)] in
+  wf_index ss = true /\ plain_index ss = true /\
+  render_spaced ss =
+    "Package: alpha" +++ nl +++ "Package-Type: deb" +++ nl +++ "Source: alpha-src (1.0)" +++ nl +++
+    "Filename: pool/main/a/alpha/alpha_1.0_amd64.deb" +++ nl +++ "Size: 1234" +++ nl +++ "SHA256: 00ff" +++ nl +++
+    "Description: first line" +++ nl +++ "  Filename: not/a/field" +++ nl +++ "  ." +++ nl +++ nl +++ nl +++
+    "Filename: pool/main/b/beta_2_all.deb" +++ nl +++ "Size: 7" +++ nl +++ "Package: beta" +++ nl +++ nl /\
+  index_entries false no_filters [] (parse "/r") ss =
+    [{| pe_path := parse "pool/main/a/alpha/alpha_1.0_amd64.deb"; pe_size := 1234%Z; pe_ign := false |};
+     {| pe_path := parse "pool/main/b/beta_2_all.deb"; pe_size := 7%Z; pe_ign := false |}].
+Proof. vm_compute. repeat split; reflexivity. Qed.
